@@ -2,6 +2,7 @@
 the code, which implementation-level oracle searches for a failing input when the tie breaks."""
 
 GEN_POSE = ["GraphSlam/Generated/Pose*.lean"]
+G2O_SCAN = ["GraphSlam/Props/C13/*.lean", "GraphSlam/Props/C14/*.lean", "GraphSlam/Model/G2O.lean", "GraphSlam/Model/G2O/*.lean", "Driver/G2OMain.lean"]
 
 PROPS = {
     "C01": dict(
@@ -313,6 +314,69 @@ PROPS = {
         "unknown_id_raises, bind_raises_iff, valid_iff_welltyped_odometry/_landmark (is_valid() <-> the docstring rule), constructor_keyError_iff, constructor_assertionError_iff, constructor_accepts_iff, constructor_raises_iff, constructor_error_classes, "
         "constructor_binds_by_id, gradient_index_layout (prefix sums of compact dimensionalities).",
         level_note="Trusted: Lean kernel, the hand model (tied every run by 0.11M/0.63M exact comparisons incl. object identity), harness abstraction. Under `python -O` the assert is stripped and ill-typed edges are accepted (not modelled).",
+    ),
+    "C13": dict(
+        modules=["GraphSlam.Props.C13"],
+        theorem_files=["GraphSlam/Props/C13.lean"],
+        scan_files=G2O_SCAN,
+        drivers=("gsdriver_g2o",),
+        needs_generated=False,          # Layer B only: nothing of GraphSlam/Generated is imported
+        corr=[("harness.entry", "g2o", dict(quick=(1500, 800), thorough=(10000, 5000)))],
+        search=("search.entry", "c13"),
+        always_search=True,             # re-confirms the known finding quat-sign:odometry:cross-terms on every run (0.3 s)
+        replay=("search.entry", "replay_g2o"),
+        rule="Layer-B tie on real temporary files: (i) for random constructed graphs (all element kinds, values 1e-300..1e300, denormals, +-0.0, inf/nan, ids up to 2^200, "
+        "w<0 and non-unit quaternions, rotated registered offsets, non-diagonal information, duplicate vertex ids, custom edge types with/without to_g2o/from_g2o, 30% with one "
+        "inexpressible element) the text written by Graph.to_g2o is string-equal to Model.G2O.Graph.toG2O, or both refuse with the same exception class and leave the same partial file; "
+        "(ii) 1-5 export/import cycles and generated files of the whole vocabulary (tabs / repeated / Unicode blanks, CRLF / CR / missing final newline, spellings 1E-3 +.5 007 1_0 "
+        "Arabic-Indic digits nan inf, junk / comment / blank lines, duplicate and late parameters, 35% with one malformed line): objects of Graph.from_g2o and the five load.py wrappers "
+        "bit-equal to the model's parse (ids, classes, order, every float by bit pattern, offset ids, parameter dictionary, log records as a multiset) or same exception class; "
+        "(iii) readlines / strip / rstrip / split of every line and str.isspace of all 1,112,064 code points. float()/int()/str()/neg_pi_to_pi/normalize() enter the model as per-request "
+        "tables computed with the real functions; float(str(x)) == x bitwise is re-checked on every generated value. non-trivial = distinct (outcome, size, text) triple",
+        assumptions=["numbers are atoms: parse(fmt x) = x and fmt x is a non-empty whitespace-free token, for the atoms of the graph at hand (CPython shortest-repr round trip; re-checked by the harness on every value; "
+                     "NaNs with a sign/payload are outside: they print as 'nan')",
+                     "well-formed objects: vertex ids / offset ids are Python ints; poses, estimates and information are float64 arrays of the documented shapes; _g2o_params keys equal the parameters' own keys",
+                     "Expressible (decidable): SE2/SE3/R2/R3 vertices; SE2/SE3 odometry; landmark SE2->R2 with identity offset, SE3->R3 with a registered equal offset; symmetric information; no custom edges",
+                     "canon_idempotent / second_cycle: neg_pi_to_pi idempotent (checked on every value each run: 0 failures) and normalize() idempotent (exact arithmetic only; in IEEE ~27% of "
+                     "renormalisations move the last bit — measured each run, allowed by the property text)",
+                     "chi2 is not a model quantity: equality of chi2 follows from equality of the objects (C02) and is checked numerically by the search at 1e-12"],
+        technique="Lean 4 proof about a hand-written executable model tied to the code by exact correspondence (string / bit equality) on every run",
+        level_text="17 theorems: splitWS_join / splitWS_glue (split() inverts \" \".join and any whitespace gluing, every list length); triu_full_roundtrip (for EVERY n: expanding the row-major "
+        "upper triangle of M returns M iff M symmetric); roundtrip (every Expressible graph: the writer succeeds and parseFile(printFile g) = ok(canon g) with an empty log; ids, classes, "
+        "order, information preserved); canon_physical (canon changes only SE2 angles -> wrapped, SE3 odometry quaternions -> normalize(), landmark offsets -> array_equal copies); "
+        "canon_idempotent, expressible_canon, second_cycle; refuses_* (each inexpressible kind gives the modelled exception class: NotImplementedError for unknown poses, R-type odometry, "
+        "landmark edges other than SE2->R2 / SE3->R3, SE2 landmark with non-identity offset; ValueError before the file is opened for unregistered SE3 offsets) and refuses_inexpressible "
+        "(if text is written at all, every element has a writable shape). Known finding (stays): chi2 changes for SE3 odometry with w<0 and cross terms (quat-sign:odometry:cross-terms).",
+        level_note="Full at token/object level under the fmt/parse assumption. Trusted: Lean kernel, harness + driver (exact comparison), CPython's float/str. Not covered: float32/int information arrays, "
+        "non-int ids, poses of wrong length (all outside the stated well-formedness hypothesis); asymmetric information (outside Expressible: only the upper triangle is written, silently); "
+        "a partially written file is left behind when an element is refused mid-way (mirrored by toG2OTrace and compared by the harness, not judged).",
+    ),
+    "C14": dict(
+        modules=["GraphSlam.Props.C14"],
+        theorem_files=["GraphSlam/Props/C14.lean", "GraphSlam/Props/C14/Lines.lean"],
+        scan_files=G2O_SCAN,
+        drivers=("gsdriver_g2o",),
+        needs_generated=False,
+        corr=[("harness.entry", "g2o", dict(quick=(300, 5000), thorough=(2000, 30000)))],
+        search=("search.entry", "c14"),
+        replay=("search.entry", "replay_g2o"),
+        rule="same Layer-B tie as C13, weighted towards generated files: per file the model's readlines/strip/rstrip/split equal Python's, and Graph.from_g2o / load_g2o / load_g2o_r2 / _r3 / _se2 / _se3 "
+        "(chosen at random) equal Model.G2O.Graph.fromG2O / Loader.run bitwise, including the log records and the exception class on the malformed stream "
+        "(wrong field counts, numpy's length-1 broadcast of the information tokens, non-numeric tokens, float ids, dangling ids -> KeyError, type-mismatched edges -> AssertionError, "
+        "parameter used before its line -> KeyError, custom edge types shadowing EDGE_SE2 / PARAMS_SE2OFFSET); non-trivial = distinct (outcome, size, text) triple",
+        assumptions=["numbers are atoms: float()/int() of every token are supplied per run by the harness from CPython, so whatever CPython accepts or rejects is what the model sees",
+                     "custom edge types are parameters of the theorems (any from_g2o); the harness registers the family of tests/edge_types.py (tag, n ids, estimate, triangular information)",
+                     "file decodes as UTF-8 (open() default here); a BOM is an ordinary character"],
+        technique="Lean 4 proof about a hand-written executable model tied to the code by exact correspondence (bit equality) on every run",
+        level_text="20 theorems: dispatch_total_order (whole 10x10 table by decide: no TAG+' ' is a prefix of another; a line starts with at most one) and dispatch_constructor (a tagged line yields exactly one object "
+        "of the tag's kind or raises — never a warning); line_faithful_<TAG> x10 (through the whole dispatch: fields = float()/int() of the corresponding tokens, extra tokens ignored where numpy "
+        "slicing ignores them, SE2 angles wrapped, odometry quaternion normalize()d, information = expandTriu of the triangular tokens, landmark offset = value of the looked-up parameter); "
+        "information_expansion (n x n, symmetric, tokens above the diagonal in row-major order, length-1 broadcast, ValueError otherwise); param_lookup_after_line + param_dictionary_of_trace "
+        "(most recent preceding parameter wins); skip_independent (files of every length: inserting/removing blank or unrecognised lines anywhere changes no object, order or exception, "
+        "and exactly one 'Line not supported' record per non-blank one, as a multiset) + skip_one; order_preserved (the loop succeeds iff a trace pairs every non-blank line with its single "
+        "product, containers = those products in file order); loaders_agree (five wrappers = from_g2o + exactly one deprecation record).",
+        level_note="Full under the parse abstraction. Mirrors, does not judge: a tab directly after the tag makes the line unrecognised; VERTEX_XY/TRACKXYZ accept any number of coordinates; a single "
+        "information token is broadcast to the whole matrix; exceptions leave the earlier warnings logged. Trusted: Lean kernel, harness + driver, CPython float()/int()/str.split.",
     ),
 }
 
